@@ -4,7 +4,7 @@ from props import common
 
 ID = "C19"
 LEVEL = "proof"
-SIDECARS = ["contracts.tensor", "contracts.equation", "contracts.defaults"]
+SIDECARS = ["contracts.tensor", "contracts.equation", "contracts.equation_c19", "contracts.defaults"]
 TARGETS = ["Equation.__get_tensor_ranks", "Equation.__build_einsum_ranks", "LoopOrder.__default_loop_order", "LoopOrder.add", "Mapping.__init__",
            "Partitioning.__update_ranks"]
 EXPLANATION = (
